@@ -36,6 +36,15 @@ def _inputs(case):
             2.0, 1.0, size=data.shape)) + 0.05
         for (i, j, v) in case.get('error_special', []):
             error[i, j] = v
+    if case.get('dtype') == 'int16' and np.all(np.isfinite(data)) \
+            and np.all(np.abs(data) < 3e4) and np.all(data == np.round(data)):
+        # raw integer counts: profiles are still floating-point sums
+        data = data.astype('i2')
+    elif case.get('dtype') == 'float32':
+        with np.errstate(over='ignore'):
+            d32 = data.astype('f4')
+        if np.all(np.isfinite(d32) == np.isfinite(data)):
+            data = d32
     return data, mask, error
 
 
@@ -212,6 +221,7 @@ def photometric_cases(draw):
             'radii': draw(radii_lists(draw(st.booleans()))),
             'method': draw(st.sampled_from(['exact', 'center', 'subpixel'])),
             'subpixels': draw(st.sampled_from([1, 3, 5])),
+            'dtype': draw(st.sampled_from([None, None, 'int16', 'float32'])),
             'quantity': draw(st.integers(0, 4)) == 0}
     if case['error_seed'] is not None and draw(st.integers(0, 3)) == 0:
         case['error_special'] = [[draw(st.integers(0, ny - 1)),
@@ -224,7 +234,8 @@ def photometric_cases(draw):
 # histories
 
 READS = ['profile', 'profile_error', 'area', 'data_profile', 'radius']
-OPS = READS + ['normalize_max', 'normalize_sum', 'unnormalize', 'ee_at_radius']
+OPS = READS + ['normalize_max', 'normalize_sum', 'unnormalize', 'ee_at_radius',
+               'deepcopy', 'pickle']
 
 
 def check_history(case, ctx):
@@ -256,6 +267,19 @@ def check_history(case, ctx):
                             f'{when}: {name} differs from reference/{N!r}: '
                             f'{got[:4]} vs {exp[:4]}', attr=name)
     for op in case['ops']:
+        if op in ('deepcopy', 'pickle'):
+            # the object that continues the history is a copy / a pickle
+            # round trip of the current one (e.g. returned from a worker)
+            import copy as _copy
+            import pickle as _pickle
+            try:
+                obj = _copy.deepcopy(obj) if op == 'deepcopy' else \
+                    _pickle.loads(_pickle.dumps(obj))
+            except Exception:
+                ctx.event('not_picklable')
+                continue
+            ctx.event('continued_on_' + op)
+            continue
         if op == 'ee_at_radius':
             # the interpolator must follow the *current* profile (it passes
             # through the sampled points)
